@@ -1,5 +1,5 @@
 (* C09  Constant folding never changes the value of an expression. *)
-From InfluxQL Require Import Base.Prelude Base.Oracles Lex.Token Ast.Ast Sem.Eval Sem.Reduce Proofs.ReduceProofs.
+From InfluxQL Require Import Base.Prelude Base.Oracles Lex.Token Ast.Ast Sem.Eval Sem.Reduce Proofs.ReduceProofs Proofs.SetTimeRangeProofs.
 
 (* For every expression that is well-typed in the property's discipline (typeof: boolean operators on booleans;
    arithmetic, bitwise and ordering operators on numbers; equality on like kinds; string =~ regex), every assignment
@@ -55,6 +55,11 @@ Theorem C09_sound_refuted_datelike :
   eval orc true [] (Reduce orc (map_valuer []) e) = VBool true /\ eval orc true [] e = VBool false.
 Proof. vm_compute. split; reflexivity. Qed.
 Print Assumptions C09_sound_refuted_datelike.
+
+(* folding is idempotent: Reduce of a reduced expression returns it unchanged - every expression, every valuer *)
+Theorem C09_idempotent : forall orc v e, Reduce orc v (Reduce orc v e) = Reduce orc v e.
+Proof. exact InfluxQL.Proofs.SetTimeRangeProofs.Reduce_idem. Qed.
+Print Assumptions C09_idempotent.
 
 (* non-vacuity: a mixed-kind expression, half of its variables bound at Reduce time *)
 Local Open Scope string_scope.
